@@ -36,6 +36,7 @@ type TplImg struct {
 	Look  []int   `json:"look,omitempty"`
 	Alt   string  `json:"alt,omitempty"`
 	Title string  `json:"title,omitempty"`
+	Slot  int     `json:"slot,omitempty"` // via file / details-file: 0 a path of its own, k>0 the case's k-th reused path (see Step.Slot)
 }
 
 // Step is one call of the history.
@@ -48,7 +49,17 @@ type TplImg struct {
 //	cellimgf   AddCellImageFromFile(table, r, c, path, widthMM)
 //	phpara     AddParagraph(text0 {{#image p0}} text1 ... )               (a template paragraph in the body)
 //	cellph     AddCellParagraph / SetCellText with such a text            (a template paragraph in a cell)
-//	render     LoadTemplateFromDocument(current) + RenderTemplateToDocument(Data); the result becomes the current document
+//	render     LoadTemplateFromDocument(current) + RenderTemplateToDocument(Data); the result becomes the current document.
+//	           Eng 0: a new TemplateEngine; 1: the case's one engine (load the current document under the same template name
+//	           again, render); 2: the case's one engine renders the template it loaded last ONCE MORE (no reload; the base is the
+//	           document as it was at that load) - without a loaded template 2 acts like 1.
+//	           TD 0: a new TemplateData; 1: the case's one TemplateData (entries of earlier TD=1 renders stay unless set again).
+//
+// Slot (imgfile, cellimg with B, cellimgf, TplImg via file): 0 = the file gets a path of its own; k>0 = the file is written to the
+// case's k-th reused path (replacing what an earlier step wrote there - an image of other bytes, format, pixel size) just before the call.
+// A path is a reference: the picture shows the bytes that are at the path when the call that creates the picture reads it
+// (AddImageFromFile / AddCellImage...: that call; SetImage: the render - SetImage cannot fail, it does not read).
+//
 //	reopen     ToBytes -> OpenFromMemory (B: Save -> Open through a file); editing continues on the reopened document
 //	renumber   ToBytes -> the harness rewrites the relationship ids of word/_rels/document.xml.rels and their uses
 //	           (scheme N) -> OpenFromMemory: the package of another producer with the same content
@@ -67,6 +78,9 @@ type Step struct {
 	M     int      `json:"m,omitempty"`
 	B     bool     `json:"b,omitempty"`
 	S     string   `json:"s,omitempty"`
+	Slot  int      `json:"slot,omitempty"`
+	Eng   int      `json:"eng,omitempty"`
+	TD    int      `json:"td,omitempty"`
 }
 
 type Case struct {
@@ -85,6 +99,8 @@ type pic struct {
 	name   string
 	op     int
 	seenOK bool // resolved correctly at an earlier observation
+	slot   int  // >0: the bytes were read from the case's slot-th reused path
+	stale  bool // template picture whose TemplateData entry was set by an earlier render step
 }
 
 type mpara struct {
@@ -405,6 +421,7 @@ func sparseScheme(n int) bool { return n == schemeShift || n == schemeSpread || 
 func analyze(c Case) analysis {
 	a := analysis{skipBodyAt: -1, skipCellAt: -1, sparseAt: -1}
 	m := &model{}
+	tt := &tplTrack{}
 	for i, s := range c.Steps {
 		if a.sparseAt >= 0 && relCreating(s) {
 			a.relAfterSparse = true
@@ -416,9 +433,10 @@ func analyze(c Case) analysis {
 			}
 		case "render":
 			imgs := map[string]*pic{}
-			for _, d := range s.Data {
-				imgs[d.Name] = &pic{}
+			for n := range tt.names(s) {
+				imgs[n] = &pic{}
 			}
+			m, _ = tt.base(m, s.Eng)
 			info := m.render(imgs)
 			if info.skipBody && a.skipBodyAt < 0 {
 				a.skipBodyAt = i
